@@ -65,15 +65,17 @@ int main(int argc, char** argv) {
     ells.push_back({"f=-1/50", aW, -0.02, false, 30e-9});
     ells.push_back({"a=1 f=1/150", 1.0, 1 / 150.0, false, 25e-9 / aW});
   }
-  const std::vector<Centre> centres = {{0, 0}, {40, -75}, {90, 0}, {-89.9, 123}, {30, 0}, {-35, 179.5}};
+  std::vector<Centre> centres = {{0, 0}, {40, -75}, {90, 0}, {-89.9, 123}, {30, 0}, {-35, 179.5}};
+  if (T) { centres.push_back({-90, 50}); centres.push_back({1e-10, -179.9}); centres.push_back({89.99999, 45}); centres.push_back({60, 100}); }
   std::vector<double> bearings; for (int k = -7; k <= 8; ++k) bearings.push_back(22.5 * k);
   bearings.push_back(1e-9); bearings.push_back(90 - 1e-7); bearings.push_back(-135.3);
   // ranges in units of a/6378137 m
-  const std::vector<double> ranges = {0, 1e-6, 1, 1e3, 1e6, 5e6, 6.4e6, 9e6, 9.9e6, 1.1e7, 1.5e7, 1.9e7, 1.99e7};
+  std::vector<double> ranges = {0, 1e-6, 1, 1e3, 1e6, 5e6, 6.4e6, 9e6, 9.9e6, 1.1e7, 1.5e7, 1.9e7, 1.99e7};
+  if (T) { ranges.push_back(1e-3); ranges.push_back(3e6); ranges.push_back(9.99e6); ranges.push_back(2.5e7); ranges.push_back(4.5e7); }
   ctx.bound("proj.ellipsoids", T ? "sphere, WGS84, f=+-0.1 (Geodesic exact=true), f=+-1/50, (a=1,f=1/150)" : "sphere, WGS84");
-  ctx.bound("proj.centres", "(0,0) (40,-75) (90,0) (-89.9,123) (30,0) (-35,179.5)");
+  ctx.bound("proj.centres", T ? "(0,0) (40,-75) (90,0) (-89.9,123) (30,0) (-35,179.5) (-90,50) (1e-10,-179.9) (89.99999,45) (60,100)" : "(0,0) (40,-75) (90,0) (-89.9,123) (30,0) (-35,179.5)");
   ctx.bound("proj.bearings", "k*22.5 deg for k=-7..8, 1e-9, 90-1e-7, -135.3 (19 values)");
-  ctx.bound("proj.ranges", "{0,1e-6,1,1e3,1e6,5e6,6.4e6,9e6,9.9e6,1.1e7,1.5e7,1.9e7,1.99e7} m x a/6378137 (13 values; 1.1e7.. lie beyond the gnomonic horizon)");
+  ctx.bound("proj.ranges", std::string("{0,1e-6,1,1e3,1e6,5e6,6.4e6,9e6,9.9e6,1.1e7,1.5e7,1.9e7,1.99e7") + (T ? ",1e-3,3e6,9.99e6,2.5e7,4.5e7" : "") + "} m x a/6378137 (1.1e7.. lie beyond the gnomonic horizon; 2.5e7, 4.5e7 are not shortest paths)");
   ctx.bound("proj.cassini-grid", "easting {0,+-1e-6,+-1e3,+-1e6,+-5e6,+-9e6} x northing {0,+-1e3,+-1e6,+-5e6,+-1.1e7,+-1.9e7} m x a/6378137 (11 x 11)");
   ctx.note("tolerances: 2 x documented geodesic accuracy (15 nm series WGS84/sphere, 30 nm |f|=1/50, 40 nm exact) per geodesic leg compared "
            "(reference + library: 2 legs az-eq/gnomonic, 4 legs Cassini), amplified by the derivative of the map where the map is not an isometry "
